@@ -7,7 +7,9 @@
        reachable by ANY interleaving of the operations of ANY number of contexts, no container is
        reachable from two contexts; and whatever sequence of operations the other contexts perform,
        in whatever order, every observation of a context (a global, or the contents of a container
-       it can reach) is unchanged.  Tied to the code by replaying generated interleaved operation
+       it can reach) is unchanged; and after any interleaved history a context's whole view
+       (values, container contents, sharing between its slots, loaded modules) equals its view
+       after its own operations alone (addresses may differ between the two runs, the view not).  Tied to the code by replaying generated interleaved operation
        histories on real contexts through the Go API (vm_compute comparison of every slot).
    (b) The regenerated, type-checked inventory of writes to package-level variables outside init
        in py/, vm/, stdlib/... and repl/: every one is audited; package-level variables with
@@ -17,7 +19,7 @@
    Go race detector, which samples schedules. *)
 From Coq Require Import List Bool Arith String.
 Import ListNotations.
-From GP Require Import Gen.Inventories Model.Contexts Proofs.Contexts.
+From GP Require Import Gen.Inventories Model.Contexts Proofs.Contexts Proofs.ContextsSolo.
 
 Theorem C08_no_container_shared_between_contexts : forall impls h, Inv (run impls h init).
 Proof. intros. apply run_inv. apply inv_init. Qed.
@@ -29,6 +31,14 @@ Proof. exact others_cannot_interfere. Qed.
 Theorem C08_no_leak : forall impls c s before others, Forall (fun co => fst co <> c) others ->
   observe (run impls others (run impls before init)) c s = observe (run impls before init) c s.
 Proof. exact no_leak. Qed.
+
+(* the full statement of the property on the model: after ANY interleaved history of ANY number of
+   contexts, what context c observes -- every global, the contents of every container it can
+   reach, which of its slots share a container, which modules it has loaded -- is exactly what
+   it observes after its own operations alone *)
+Theorem C08_observes_what_it_observes_alone : forall impls c h,
+  view_eq c (run impls h init) (run impls (own c h) init).
+Proof. exact observes_what_it_observes_alone. Qed.
 
 (* non-vacuity: two contexts import the same module and append to "the same" list global *)
 Example C08_nonvacuous :
@@ -59,4 +69,5 @@ Proof. vm_compute. repeat split. Qed.
 Print Assumptions C08_no_container_shared_between_contexts.
 Print Assumptions C08_others_cannot_interfere.
 Print Assumptions C08_no_leak.
+Print Assumptions C08_observes_what_it_observes_alone.
 Print Assumptions C08_process_wide_state_is_audited.
